@@ -6,7 +6,7 @@
    rejected.  The composite statement over description trees is correspondence
    + oracle (prefixes, mutations, random strings, somersault). *)
 From Coq Require Import ZArith List Bool.
-From OV Require Import Base.Bytes Base.Wire Generated Model.Str Model.Codec Proofs.BytesProofs Proofs.AtomicProofs Proofs.CodecProps Proofs.FlatProofs Proofs.FlatDecodeProofs.
+From OV Require Import Base.Bytes Base.Wire Generated Model.Str Model.Codec Proofs.BytesProofs Proofs.AtomicProofs Proofs.CodecProps Proofs.FlatProofs Proofs.FlatDecodeProofs Proofs.TreeDecodeProofs.
 Import ListNotations.
 Open Scope Z_scope.
 
@@ -57,3 +57,33 @@ Example C05_flat_example :
   decode_msg (map mkp fl) [34; 1; 2; 9] = Ok (VDict [([115], VInt 34); ([97], VInt 513)]).
 Proof. exact flat_decode_example. Qed.
 Print Assumptions C05_flat_example.
+
+(* ---------- structures nested to any depth (Proofs/TreeDecodeProofs.v) ---------- *)
+(* the same two statements for messages whose parameters are standard-length parameters or STRUCTUREs of such,
+   recursively (side condition: the model's fuel suffices for the nesting depth, a computable inequality) *)
+Theorem C05_nested_message_total : forall ts d m,
+  (forall t, In t ts -> (d_depth t <= d)%nat /\ d_wf t) ->
+  (3 * d + 3 <= fuel_of (map d_p ts))%nat ->
+  dec_outcome_ok (decode_msg (map d_p ts) m).
+Proof. exact tree_decode_total. Qed.
+Print Assumptions C05_nested_message_total.
+
+Theorem C05_nested_message_truncation : forall ts d m,
+  (forall t, In t ts -> (d_depth t <= d)%nat /\ d_wf t) ->
+  (3 * d + 3 <= fuel_of (map d_p ts))%nat ->
+  blen m < msg_bytes ts ->
+  decode_msg (map d_p ts) m = Err EDecode \/ decode_msg (map d_p ts) m = Err EMismatch.
+Proof. exact tree_truncated_rejected. Qed.
+Print Assumptions C05_nested_message_truncation.
+
+Example C05_nested_example :
+  let u8 nm := mkF nm 8 BUint None true BUint None in
+  let ts := [DLeaf (mkF [115] 8 BUint None true BUint (Some (VInt 34)));
+             DNode [111] [DLeaf (u8 [97]); DNode [105] [DLeaf (mkF [98] 12 BUint None false BUint None); DLeaf (u8 [99])]];
+             DLeaf (u8 [122])] in
+  (forall t, In t ts -> (d_depth t <= 2)%nat /\ d_wf t) /\
+  (3 * 2 + 3 <= fuel_of (map d_p ts))%nat /\ msg_bytes ts = 6 /\
+  decode_msg (map d_p ts) [34; 1; 188; 10; 3] = Err EDecode /\
+  (exists v, decode_msg (map d_p ts) [34; 1; 188; 10; 3; 255; 9] = Ok v).
+Proof. exact tree_decode_example. Qed.
+Print Assumptions C05_nested_example.
